@@ -12,11 +12,13 @@
 (* property -- those are the clauses of Props*.tla -- but it is what ties    *)
 (* the model that TLC explores exhaustively to the implementation.          *)
 (***************************************************************************)
-EXTENDS PropsCodec, Staking
+EXTENDS PropsCodec, Coins
 
-ModelCovers == /\ Delivered /\ Tx.intact /\ Tx.mut = "" /\ (Supported(st, Tx) \/ StakingSupported(st, Tx)) /\ "st" \in DOMAIN ev'
+ModelCovers == /\ Delivered /\ Tx.intact /\ Tx.mut = "" /\ (Supported(st, Tx) \/ StakingSupported(st, Tx) \/ CoinsSupported(st, Tx)) /\ "st" \in DOMAIN ev'
                /\ (Tx.type = "RedeemCheck" => (HasArg("issuer") /\ HasArg("proofOk")))
-Predicted == RunTxS(st, Tx, H, Cfg)
+               /\ (Tx.type \in {"CreateToken", "RecreateToken"} => Code \notin {203, 204})      \* ticker and name well-formed (not part of the abstract transaction)
+NodeMaxSupply == (Nat2A(1000000) ** Nat2A(1000000000)) ** hist.unit       \* 10^15 coins
+Predicted == RunTxC(st, Tx, H, Cfg, NodeMaxSupply)
 Conf_Code ==
    Clause("DRIFT", "LedgerModelPredictsCode", ModelCovers, Predicted.code = Code,
           [at |-> WhereTx, predicted |-> Predicted.code])
